@@ -15,6 +15,7 @@ pub mod verif_sched {
         pub next: usize,
         pub running: Vec<BuildId>,
         pub events: Vec<String>,
+        pub mkdir_fail: Option<usize>,
     }
 
     thread_local! {
@@ -49,6 +50,18 @@ pub mod verif_sched {
             let d = s.dirty.get(idx(id)).copied().unwrap_or(false);
             s.events.push(format!("judge:{}:{}", idx(id), if d { 1 } else { 0 }));
             d
+        })
+    }
+    pub fn on_mkdir(who: Option<BuildId>) -> anyhow::Result<()> {
+        SCRIPT.with(|s| {
+            let mut s = s.borrow_mut();
+            if let (Some(w), Some(f)) = (who, s.mkdir_fail) {
+                if idx(w) == f {
+                    s.events.push(format!("mkdir-failed:{}", f));
+                    anyhow::bail!("Permission denied (os error 13)");
+                }
+            }
+            Ok(())
         })
     }
     pub fn on_record(id: BuildId) {
@@ -165,6 +178,7 @@ pub mod verif_sched {
         options.parallelism = j;
         options.failures_left = if args[3] == "-" { None } else { Some(args[3].parse().unwrap()) };
         options.adopt = args.get(7).map(|s| s == "adopt").unwrap_or(false);
+        let mkdir_fail: Option<usize> = args.iter().find_map(|a| a.strip_prefix("mkdirfail=").and_then(|x| x.parse().ok()));
         let mut pools: SmallMap<String, usize> = SmallMap::default();
         if args[4] != "-" {
             pools.insert("p".to_string(), args[4].parse().unwrap());
@@ -187,6 +201,7 @@ pub mod verif_sched {
                 cut: true,
                 dirty,
                 finishes,
+                mkdir_fail,
                 ..Default::default()
             }
         });
